@@ -1016,10 +1016,17 @@ pub fn section(input: ParseString) -> ParseResult<Section> {
   let (input, subtitle) = opt(ul_subtitle)(input)?;
 
   let mut elements = vec![];
+  #[cfg(mech_lang_mech_verif)]
+  let mut hook_prev: Option<usize> = None;
 
   let mut new_input = input.clone();
 
   loop {
+    #[cfg(mech_lang_mech_verif)]
+    {
+      if let Some(prev) = hook_prev { crate::parser::verif_hook::push(crate::parser::verif_hook::SECTION_ITER, prev, new_input.cursor, new_input.graphemes.len()); }
+      hook_prev = Some(new_input.cursor);
+    }
     // Stop if EOF reached
     if new_input.cursor >= new_input.graphemes.len() {
       //println!("EOF reached while parsing section");
@@ -1094,10 +1101,17 @@ pub fn section(input: ParseString) -> ParseResult<Section> {
 pub fn body(input: ParseString) -> ParseResult<Body> {
   let (mut input, _) = whitespace0(input)?;
   let mut sections = vec![];
+  #[cfg(mech_lang_mech_verif)]
+  let mut hook_prev: Option<usize> = None;
   let mut new_input = input.clone();
   loop {
     if new_input.cursor >= new_input.graphemes.len() {
       break;
+    }
+    #[cfg(mech_lang_mech_verif)]
+    {
+      if let Some(prev) = hook_prev { crate::parser::verif_hook::push(crate::parser::verif_hook::BODY_ITER, prev, new_input.cursor, new_input.graphemes.len()); }
+      hook_prev = Some(new_input.cursor);
     }
     // Try parsing a section
     match section(new_input.clone()) {
